@@ -427,7 +427,8 @@ class History(object):
         from allmydata.mutable.common import MODE_READ
         ck, g, M, p = self.ck, self.g, self.M, self.p
         c2 = g.make_client(k=p["k"], happy=1, n=p["n"], mutable_format=p["fmt"])
-        node = c2.create_node_from_uri(self.ro_uri if self.rng.random() < .5 else self.rw_uri)
+        writecap_node = self.rng.random() >= .5
+        node = c2.create_node_from_uri(self.rw_uri if writecap_node else self.ro_uri)
         n0 = len(g.calls)
         data = None
         retried_exact = False
@@ -540,11 +541,17 @@ class History(object):
             if seq_returned != best[0][0]:
                 return "returned-seqnum-%s-best-located" % ("below" if seq_returned < best[0][0] else "above"), best, newer
             if newer and not set(self.listed_connected()) <= queried:
+                if retried_exact and writecap_node:
+                    # the survey being judged is the retry of a write-cap node, which runs in MODE_WRITE: that mode ends at
+                    # its own boundary (k empty servers after the last share found); clause (c) is about MODE_READ updates
+                    mode_write_note.append(1)
+                    return None, best, newer
                 return "finished-with-newer-unrecoverable-version-seen-and-servers-unqueried", best, newer
             return None, best, newer
 
         ck.mon("read-returns-best-located")
         ck.mon("read-keeps-searching-on-newer-evidence")
+        mode_write_note = []
         if exact and (op == "read2" or (op == "dbv" and retried_exact)):
             why, best, newer = verdict(recs)
         else:
@@ -556,6 +563,8 @@ class History(object):
                     if w2 is None:
                         why = None
                         break
+        if mode_write_note:
+            ck.observe("retry-survey-in-mode-write-ended-with-newer-evidence-and-unqueried-servers")
         loc_all = M.locate(recs)
         if any(len(e["shnums"]) < e["k"] <= len(e["holders"]) for e in loc_all.values()):
             ck.hit("read-with-k-copies-of-fewer-than-k-share-numbers-of-a-newer-version")
